@@ -94,7 +94,32 @@ def linearity_oracle(cfg, built, rng, drv=None, Fm=None):
         z = fn(torch.zeros(shape, dtype=torch.complex128))[0]
         if bool((z != 0).any()):
             viol = {'signature': f'linearity:{cfg["kind"]}:{which}:zero', 'what': f'{cfg["kind"]} {which}: A(0) != 0'}
+        v = scale_sweep(fn, x.to(torch.complex128), y.to(torch.complex128), 0.0)
+        if v and not viol:
+            viol = {'signature': f'linearity:{cfg["kind"]}:{which}:scale', 'what': f'{cfg["kind"]} {which}: {v} (integer x,y seed {cfg["seed"]})'}
     return viol
+
+
+def scale_sweep(fn, x, y, tol):
+    """homogeneity over many orders of magnitude (powers of two, so exact for + - x kernels) and superposition of
+    a large real with a tiny imaginary input: A(x + i s y) = A(x) + i s A(y)"""
+    (ax,), (ay,) = fn(x), fn(y)
+    ref = max(1e-300, float(ax.abs().max()), float(ay.abs().max()))
+    for e in (-40, -30, 30):
+        s = 2.0 ** e
+        (l,) = fn(s * x)
+        if float((l - s * ax).abs().max()) > (100 * tol) * s * ref:
+            return f'A(s x) != s A(x) for s = 2^{e}'
+        xr, yr = x.real.to(x.dtype), y.real.to(x.dtype)
+        (l,) = fn(xr + 1j * s * yr)
+        (axr,), (ayr,) = fn(xr), fn(yr)
+        # operators with a real matrix return an exactly real A(x) for real x: the comparison is then sharp; operators that
+        # mix real and imaginary parts (DFT, PCA, ...) get the rounding error of the large part as allowance
+        eps = 1.2e-7 if x.dtype == torch.complex64 else 2.3e-16
+        mixing = float(axr.imag.abs().max()) + s * float(ayr.real.abs().max()) * (float(ayr.imag.abs().max()) > 0)
+        if e < 0 and float((l - axr - 1j * s * ayr).imag.abs().max()) > (100 * tol) * s * ref + 1e3 * eps * mixing:
+            return f'A(x + i s y) != A(x) + i s A(y) for real x, y and s = 2^{e} (the small imaginary part is lost)'
+    return None
 
 
 def generic_apply_corr(cfg, built, rng, drv):
